@@ -45,10 +45,34 @@ Definition step_w (c : cfg) (b now loaded : Z) (cas_ok : bool) : flowT :=
     else if cas_ok then (LReturn (if wait =? 0 then (0, 0) else (2, wait)), [cas_act loaded pass])
     else (LContinue tt, [cas_act loaded pass]).
 
-Ltac split_ifs :=
+(* case analysis on every comparison that occurs in the goal (each is destructed once, wherever it
+   occurs, so re-associated / negated / reordered tests on the Go side reach the same leaves);
+   leaves with contradictory integer tests are closed by lia *)
+Ltac bool_hyps :=
   repeat match goal with
-         | |- context [if ?c then _ else _] => destruct c eqn:?; cbn [orb andb negb]
-         end; try reflexivity; try discriminate.
+         | H : negb _ = true |- _ => apply negb_true_iff in H
+         | H : negb _ = false |- _ => apply negb_false_iff in H
+         | H : (_ >=? _) = _ |- _ => rewrite Z.geb_leb in H
+         | H : (_ >? _) = _ |- _ => rewrite Z.gtb_ltb in H
+         | H : (_ <? _) = true |- _ => apply Z.ltb_lt in H
+         | H : (_ <? _) = false |- _ => apply Z.ltb_ge in H
+         | H : (_ <=? _) = true |- _ => apply Z.leb_le in H
+         | H : (_ <=? _) = false |- _ => apply Z.leb_gt in H
+         | H : (_ =? _) = true |- _ => apply Z.eqb_eq in H
+         | H : (_ =? _) = false |- _ => apply Z.eqb_neq in H
+         end.
+Ltac split_cmp :=
+  rewrite ?Z.geb_leb, ?Z.gtb_ltb;
+  repeat (match goal with
+          | |- context [PrimFloat.leb ?a ?b] => destruct (PrimFloat.leb a b) eqn:?
+          | |- context [PrimFloat.ltb ?a ?b] => destruct (PrimFloat.ltb a b) eqn:?
+          | |- context [PrimFloat.eqb ?a ?b] => destruct (PrimFloat.eqb a b) eqn:?
+          | |- context [Z.ltb ?a ?b] => destruct (Z.ltb a b) eqn:?
+          | |- context [Z.leb ?a ?b] => destruct (Z.leb a b) eqn:?
+          | |- context [Z.eqb ?a ?b] => destruct (Z.eqb a b) eqn:?
+          | |- context [if ?c then _ else _] => destruct c eqn:?
+          end; cbn [orb andb negb]);
+  try reflexivity; try discriminate; try (exfalso; bool_hyps; lia).
 
 Lemma throttling_DoCheck_step_w c b now loaded cas_ok owner_nonnil :
   throttling_DoCheck_step b (maxq_ns c) (ival_ns c) cas_ok loaded now owner_nonnil (thr c)
@@ -56,11 +80,7 @@ Lemma throttling_DoCheck_step_w c b now loaded cas_ok owner_nonnil :
 Proof.
   unfold throttling_DoCheck_step, step_w, early_block, interval, interval_f, cas_act.
   rewrite !leaf_i64_of_ceil_ok. cbv zeta.
-  destruct owner_nonnil;
-    (destruct (b <=? 0); [reflexivity|];
-     destruct (PrimFloat.leb (thr c) 0); cbn [orb]; [reflexivity|];
-     destruct (PrimFloat.ltb (thr c) (f_of_u64 b)); [reflexivity|];
-     split_ifs).
+  destruct owner_nonnil; split_cmp.
 Qed.
 
 (* ---- (2) the wrap-free specification and the range in which it is the code ---- *)
@@ -188,9 +208,8 @@ Proof.
   intros Ht Hs. unfold throttling_New, mk_cfg, ms_to_ns, last0. cbn [maxq_ns ival_ns]. cbv zeta.
   assert (B : forall x, in_u32 x -> i64 (x * 1000000) = x * 1000000).
   { intros x Hx. apply i64_id. unfold in_i64, in_u32 in *. Transparent two63 two32. unfold two63, two32 in *. lia. }
-  rewrite (B timeout_ms Ht).
-  destruct (stat_ms =? 0); [|rewrite (B stat_ms Hs); reflexivity].
-  rewrite (B 1000); [reflexivity|]. unfold in_u32, two32. lia.
+  assert (B1 : in_u32 1000) by (unfold in_u32, two32; lia).
+  rewrite ?(Z.mul_comm 1000000), ?(B timeout_ms Ht), ?(B stat_ms Hs), ?(B 1000 B1). split_cmp.
 Qed.
 
 (* non-vacuity of the range hypothesis: 10 tokens/s, second request 30 ms after the first *)
